@@ -91,3 +91,42 @@ Definition check_cross (c : list (list (str * ival)) * list str * option (list k
       else match model with POk outs' => if list_eqb kmap_eqb outs outs' then 0 else 2 | _ => 2 end
   | None => match model with POk _ => 2 | _ => 0 end
   end.
+
+(** parse-time selection: one plural key of one (referencing) locale and its `$t(key, {"count": N})` references.
+    [s_written]: the forms written in that locale with the ids of their values (contains Other);
+    [s_table]: the CLDR category of every count for THAT locale and the key's rule type (ICU4X oracle);
+    [s_impl]: id of the final value of every reference key after the whole parse pipeline.
+    0 agree + spec; 2 differs from the model (spec holds); 3 the value is not the form CLDR assigns for that locale *)
+Record scase := mk_scase { s_written : list (form * N); s_table : list form; s_impl : list (option N) }.
+
+Definition written_id (w : list (form * N)) (c : form) : option N :=
+  match find (fun fv => form_eqb (fst fv) c) w with Some fv => Some (snd fv) | None => None end.
+(** the property: the form written for the category, `_other` when it was not written *)
+Definition spec_static (w : list (form * N)) (c : form) (got : N) : bool :=
+  match written_id w c with
+  | Some v => got =? v
+  | None => match written_id w Other with Some v => got =? v | None => false end
+  end.
+Definition model_static (w : list (form * N)) (c : form) : option N :=
+  match written_id w Other with
+  | None => None
+  | Some other =>
+      let forms := fold_left (fun acc fv => finsert (fst fv) (snd fv) acc)
+                             (filter (fun fv => negb (form_eqb (fst fv) Other)) w) [] in
+      match resolve_count_ref unit form (fun _ _ c => c) tt tt Cardinal other forms (CountLit c) with
+      | SForm id => Some id
+      | _ => None
+      end
+  end.
+Fixpoint static_codes (w : list (form * N)) (tbl : list form) (got : list (option N)) : N :=
+  match tbl, got with
+  | [], [] => 0
+  | c :: tbl', Some g :: got' =>
+      if negb (spec_static w c g) then 3
+      else match static_codes w tbl' got' with
+           | 0 => (match model_static w c with Some m => if m =? g then 0 else 2 | None => 2 end)
+           | k => k
+           end
+  | _, _ => 3
+  end.
+Definition check_static (c : scase) : N := static_codes (s_written c) (s_table c) (s_impl c).
